@@ -523,6 +523,21 @@ func (tt *TermTable) Bin(op Op, a, b *Term) *Term {
 		if b.op == OpConst && b.val == 1 {
 			return a
 		}
+		// udiv(zext(x), c) at the width of x (a zero-extended dividend is non-negative, so the
+		// signed quotient by a positive constant is the same)
+		if a.op == OpZExt && b.op == OpConst && b.val != 0 && (op == OpUDiv || (a.a.w < w && b.val>>(w-1) == 0)) {
+			if b.val > mask(a.a.w) {
+				return tt.Const(w, 0)
+			}
+			return tt.ZExt(tt.Bin(OpUDiv, a.a, tt.Const(a.a.w, b.val)), w)
+		}
+	case OpURem:
+		if a.op == OpZExt && b.op == OpConst && b.val != 0 {
+			if b.val > mask(a.a.w) {
+				return a
+			}
+			return tt.ZExt(tt.Bin(OpURem, a.a, tt.Const(a.a.w, b.val)), w)
+		}
 	case OpBAnd:
 		if a.op == OpConst {
 			a, b = b, a
@@ -562,6 +577,9 @@ func (tt *TermTable) Bin(op Op, a, b *Term) *Term {
 		if a == b {
 			return a
 		}
+		if m := tt.mergeOr(a, b); m != nil {
+			return m
+		}
 	case OpBXor:
 		if a.op == OpConst {
 			a, b = b, a
@@ -571,6 +589,27 @@ func (tt *TermTable) Bin(op Op, a, b *Term) *Term {
 		}
 		if a == b {
 			return tt.Const(w, 0)
+		}
+		// x ^ (x ^ y) = y
+		if b.op == OpBXor {
+			if b.a == a {
+				return b.b
+			}
+			if b.b == a {
+				return b.a
+			}
+		}
+		if a.op == OpBXor {
+			if a.a == b {
+				return a.b
+			}
+			if a.b == b {
+				return a.a
+			}
+			// (x ^ c1) ^ c2
+			if b.op == OpConst && a.b.op == OpConst {
+				return tt.Bin(OpBXor, a.a, tt.Const(w, a.b.val^b.val))
+			}
 		}
 	case OpShl:
 		if b.op == OpConst {
